@@ -163,6 +163,29 @@ def _same_sum(a, b):
     return sorted(a.replace('@', '*').split('+')) == sorted(b.replace('@', '*').split('+'))
 
 
+def rule_init(repo):
+    res = RuleResult('C16.INIT', 'forward hands integrate() the rotation of the very initial state that predict() composes with (init_state[rot]), '
+                     'so gravity is removed in the frame the result is expressed in', floor=1)
+    f = repo.func(IMU, CLS + '.forward')
+    calls = [c for c in paths.calls_in(f.node) if dotted(c.func) == 'self.integrate']
+    pcalls = [c for c in paths.calls_in(f.node) if dotted(c.func) == 'self.predict']
+    if not calls or not pcalls:
+        raise AnalysisError('C16.INIT: integrate / predict calls not found in forward')
+    pinit = pcalls[0].args[0] if pcalls[0].args else None
+    for c in calls:
+        kw = {k.arg: k.value for k in c.keywords}
+        ir = kw.get('init_rot')
+        ok = ir is not None and pinit is not None and isinstance(ir, ast.Subscript) and dotted(ir.value) == dotted(pinit) and \
+            isinstance(ir.slice, ast.Constant) and ir.slice.value == 'rot'
+        res.inst({'function': f.fq, 'init_rot': src(ir) if ir is not None else None, 'predict_init': src(pinit) if pinit is not None else None, 'ok': ok},
+                 norm_construct(c, f.node))
+        if not ok:
+            res.add(Finding('C16.INIT', f, 'integrate() receives init_rot=`%s` while predict() composes with `%s`: with an explicit init_state the gravity '
+                            'is removed in the frame of the module buffers, not of the supplied state' % (src(ir) if ir is not None else None,
+                                                                                                  src(pinit) if pinit is not None else None), node=c))
+    return res
+
+
 def rule_dep(repo):
     res = RuleResult('C16.DEP', 'every scan primitive reachable from integrate / propagate_cov satisfies the integer-kind rule of C12 '
                      '(call path reported)', floor=2)
@@ -195,4 +218,4 @@ def rule_dep(repo):
 
 
 def rules(repo, tier):
-    return [rule_carry(repo), rule_rank(repo), rule_dir_comp(repo), rule_dep(repo)]
+    return [rule_carry(repo), rule_rank(repo), rule_dir_comp(repo), rule_dep(repo), rule_init(repo)]
